@@ -147,7 +147,7 @@ func genC17(seed uint64, r *rng.Rand) *Plan {
 		p.Sched.MaxFake = time.Duration(g.R.Range(2, 12)) * time.Minute
 	case "meta-rows-bad":
 		// hbase:meta answers, but what it says about the table's regions is unusable
-		kind := []string{"regioninfo-offline", "server-empty", "server-absent", "regioninfo-bad-proto", "regioninfo-empty", "regioninfo-absent", "region-older", "region-older-parent", "region-older-parent"}[g.R.Intn(9)]
+		kind := []string{"regioninfo-offline", "server-empty", "server-absent", "regioninfo-bad-proto", "regioninfo-empty", "regioninfo-absent", "region-older", "region-older-parent", "region-older-parent", "rowkey-search-key"}[g.R.Intn(10)]
 		p.Faults = append(p.Faults, &Fault{On: "exec", N: at, Act: "metabad", Rule: &hb.Rule{Msg: kind}})
 		if at > 0 {
 			// make the client look the regions up again
